@@ -28,10 +28,11 @@ import copy as _copy
 
 import heap_common as H
 import heap_shapes as HS
+import mutate_value_tie as MT
 
 PID = "C07"
-LEAN_TARGETS = ["SpecVerif.Props.C07Twin"]  # imports SpecVerif.Props.C07
-AUDIT = [("SpecVerif.Props.C07", "SpecVerif.Props.C07Twin")]
+LEAN_TARGETS = ["SpecVerif.Props.C07Twin", "SpecVerif.Props.MutateValue"]  # (C07Twin imports SpecVerif.Props.C07)
+AUDIT = [("SpecVerif.Props.C07", "SpecVerif.Props.C07Twin"), ("SpecVerif.Props.MutateValue", "SpecVerif.Props.MutateValue")]
 DRIVER = "Drivers/Heap.lean"
 REQUIRED_THEOREMS = [
     "SpecVerif.Props.C07.frozen_never_changes",
@@ -39,6 +40,13 @@ REQUIRED_THEOREMS = [
     "SpecVerif.Props.C07.frozen_inplace_no_effect",
     "SpecVerif.Props.C07.frozen_cow_distinct",
     "SpecVerif.Props.C07.frozen_cow_equals_twin",
+    # which object `mutate_value` edits, for every combination of arguments and hook behaviours (Model/MutateValue.lean)
+    "SpecVerif.Props.MutateValue.cow_never_edits_receiver_or_argument",
+    "SpecVerif.Props.MutateValue.cow_never_edits_prepared",
+    "SpecVerif.Props.MutateValue.cow_edits_only_fresh_Full",
+    "SpecVerif.Props.MutateValue.cow_never_edits_transformed",
+    "SpecVerif.Props.MutateValue.cow_edits_only_fresh_partial",
+    "SpecVerif.Props.MutateValue.frozen_inplace_edits_nothing",
 ]
 RULE = (
     "case = class table whose main class is frozen=True (nested class frozen in 30%, plain subclass inheriting it, spec "
@@ -49,15 +57,22 @@ RULE = (
     "(frozen cleared); non-trivial = the line changed the world or raised; distinct = distinct (table, pre-world, "
     "line) triples. extra = 6 hand-written frozen classes with invalidated_by dependants x 9 helper calls vs twin; "
     "extra (2) = frozen class families outside the heap grammar vs their twins (harness/heap_shapes.py; same source "
-    "template, `frozen=True` the only difference): 17 value kinds (keyed containers, tuples, containers of containers, "
-    "nested plain / frozen spec items) x storage (plain, do_not_copy, invalidated attribute, Alias override / "
-    "passthrough / fallback, overridable and cached spec_property, property with setter) x class shape (eager, lazy, "
-    "spec subclass repeating frozen, plain subclass inheriting it) x invalidation (none, by name, wildcard property, "
-    "wildcard attribute, wildcard only) x state (size, how entries were materialised, caches filled or empty, "
-    "generation 0-3, aliasing, held by a frozen or by a never-frozen outer instance) x every route: copy-on-write "
-    "(valid and failing arguments), deepcopy, and in-place probes (assignment, del, every _inplace=True helper); quick: "
-    "every 14th scenario of the systematic part (offset by seed) + 200 random, seeded random order, second half after "
-    "a prelude of earlier calls; thorough: all + 5000 random."
+    "template, `frozen=True` the only difference): 33 value kinds (keyed containers, tuples / named tuples / frozensets "
+    "holding mutables, plain objects, bytearrays, containers of containers, nested plain / frozen spec items, Any kinds) "
+    "x storage (plain, do_not_copy, invalidated attribute, Alias override / passthrough / fallback, overridable and "
+    "cached spec_property, property with setter) x class shape (eager, lazy, spec subclass repeating frozen, plain "
+    "subclass inheriting it) x invalidation (none, by name, wildcard property, wildcard attribute, wildcard only) x "
+    "preparer hooks (`_prepare_<attr>` / `_prepare_<item>` of the class and of the outer class that hand out registered "
+    "PRE-EXISTING frozen instances, or raise) x state (size, how entries were materialised, caches filled or empty, "
+    "generation 0-3, aliasing, `vals` without a value, an uncopyable member, held by a frozen or by a never-frozen outer "
+    "instance) x every route: copy-on-write (valid and failing arguments; helpers handed a registry key with and without "
+    "keyword edits, transforms returning a registered instance), deepcopy, and in-place probes (assignment, del, every "
+    "_inplace=True helper); every frozen instance a hook handed out is tracked like the receiver; quick: every 16th "
+    "scenario of the systematic part (offset by seed) + 180 random, seeded random order, second half after a prelude of "
+    "earlier (also failed) calls; thorough: all + 5000 random.  The second half of the heap-grammar histories runs after "
+    "the same prelude.  extra (3) = mutate_value tie (harness/mutate_value_tie.py): all 9600 combinations of the arguments "
+    "of `mutate_value` with abstract hooks (ident / fresh / pre-existing / raising) and a frozen or plain value class "
+    "compared with SpecVerif.MutateValue through Drivers/MutateValue.lean (which object is edited, thawed)."
 )
 ASSUMPTIONS = [
     "in-place probes are generated only on frozen receivers and objects stored by reference are not mutated behind a "
@@ -139,27 +154,44 @@ def gen_cases(tier, rng):
             # every 5th case of the search stream is a scenario of the class families outside the heap grammar
             yield HS.random_case(PID, rng) if k % 5 == 0 else _filter_case(H.gen_case(rng, PROFILE))
     n = 260 if tier == "quick" else 5000
-    for _ in range(n):
-        yield _filter_case(H.gen_case(rng, PROFILE))
+    for i in range(n):
+        case = _filter_case(H.gen_case(rng, PROFILE))
+        if i >= n // 2:
+            # the second half of the histories runs after the prelude of earlier -- also FAILED -- calls in this process
+            # (heap_shapes.run_prelude): the model has no process-level state, the code must not have any either
+            case["prelude"] = True
+        yield case
+
+
+def _special(case):
+    """Cases of the `extra` sections (replayable through `oracle`), not histories of the heap grammar."""
+    return HS.is_case(case) or "mutate_value_tie" in case
 
 
 def model_lines(case):
-    return [] if HS.is_case(case) else H.model_lines(case)
+    return [] if _special(case) else H.model_lines(case)
 
 
 def real_lines(case):
-    return [] if HS.is_case(case) else H.real_lines(case)
+    if _special(case):
+        return []
+    HS.ensure_prelude(case)
+    return H.real_lines(case)
 
 
 def shrink(case, at=None):
-    return [] if HS.is_case(case) else H.shrink_case(case, at)
+    return [] if _special(case) else H.shrink_case(case, at)
 
 
 def nontrivial(case, real):
+    if "mutate_value_tie" in case:
+        return [("mutate_value_tie", H.dumps(case["mutate_value_tie"]))]
     return [("shapes", H.dumps(case["sc"]))] if HS.is_case(case) else H.nontrivial_keys(case, real)
 
 
 def tags(case, real):
+    if "mutate_value_tie" in case:
+        return ["mutate_value_tie"]
     return ["shapes:" + HS.route_kind(case["sc"]["route"])] if HS.is_case(case) else H.op_tags(case, real)
 
 
@@ -191,6 +223,9 @@ def _run_twin(case, skip):
 def oracle(case):
     if HS.is_case(case):  # a scenario of the class families outside the heap grammar (harness/heap_shapes.py)
         return HS.judge_case(case)
+    if "mutate_value_tie" in case:  # one point of the `mutate_value` tie (harness/mutate_value_tie.py)
+        return MT.oracle(case["mutate_value_tie"])
+    HS.ensure_prelude(case)
     violations = []
     frozen = _frozen_classes(case["table"])
     # ---- frozen run with hooks
@@ -343,7 +378,26 @@ def _extra_calls():
 
 
 def extra(tier, rng):
-    return HS.merge_extra(_extra_handwritten(tier, rng), HS.extra_section(PID, tier, rng))
+    return HS.merge_extra(_extra_handwritten(tier, rng), HS.extra_section(PID, tier, rng), _extra_mutate_value_tie(tier, rng))
+
+
+def _extra_mutate_value_tie(tier, rng):
+    """Real `mutate_value` vs `SpecVerif.MutateValue.mutateValue` through Drivers/MutateValue.lean (harness/mutate_value_tie.py):
+    which object is edited, for every combination of arguments and hook behaviours (exhaustive)."""
+    import common
+
+    r = MT.run(tier, rng, common.run_driver)
+    return {
+        "evaluations": r["lines"],
+        "nontrivial": r["keys"],
+        "violations": r["violations"][:20],
+        "disagreements": r["disagreements"][:20],
+        "info": {
+            "mutate_value_tie_points": r["lines"],
+            "mutate_value_tie_disagreeing_points": len(r["disagreements"]),
+            "mutate_value_tie_histogram": dict(sorted(r["tags"].items())),
+        },
+    }
 
 
 def _extra_handwritten(tier, rng):
@@ -452,7 +506,7 @@ def _extra_handwritten(tier, rng):
 KNOWN_MATCHERS = {}
 
 MANIFEST_ENTRY = {
-    "level_text": "Lean 4 proof, over the heap model with object identities and an explicit thaw window (the __spec_class_initializing__ marker as a flag of the instance node), that for an instance of a frozen class assignment, deletion and every helper called with _inplace=True raise (FrozenInstanceError at the guard) before any effect on a pre-existing object, that no operation whatsoever changes a frozen instance or any other pre-existing object, and that copy-on-write helpers and deepcopy return new objects; that every operation not called in place (all helpers with and without keywords, constructor, deepcopy; every callback fault plan) yields the same result and the same final heap on the frozen class table and on its non-frozen twin (two-run simulation with the thaw windows as the only difference); tied to /repo by executing generated histories on frozen class tables on the real spec_classes and on the model, comparing outcome class, contents, aliasing and marker after every step, and by re-running every history on the twin classes.",
+    "level_text": "Lean 4 proof, over the heap model with object identities and an explicit thaw window (the __spec_class_initializing__ marker as a flag of the instance node), that for an instance of a frozen class assignment, deletion and every helper called with _inplace=True raise (FrozenInstanceError at the guard) before any effect on a pre-existing object, that no operation whatsoever changes a frozen instance or any other pre-existing object, and that copy-on-write helpers and deepcopy return new objects; that every operation not called in place (all helpers with and without keywords, constructor, deepcopy; every callback fault plan) yields the same result and the same final heap on the frozen class table and on its non-frozen twin (two-run simulation with the thaw windows as the only difference); tied to /repo by executing generated histories on frozen class tables on the real spec_classes and on the model, comparing outcome class, contents, aliasing and marker after every step, and by re-running every history on the twin classes. Further Lean model SpecVerif.MutateValue of the mutate_safe discipline of mutate_value with abstract user hooks that may return PRE-EXISTING objects (a preparer looking a preset up, a transform returning one): proved exhaustively over all argument combinations that without inplace neither the receiver's value nor the caller's argument nor the object a preparer handed out is ever edited (thawed), that in place on a frozen value nothing is edited, and (at full strength since fix 5dd14f2; a legacy counter-model of the earlier code is kept for the record) that every edited object -- the one a transform hands back included -- was built or copied by the call; tied to /repo per run over all 9600 combinations through Drivers/MutateValue.lean.",
     "level_note": "Trusted: Lean kernel; axioms propext/Classical.choice/Quot.sound only; the hand-written heap model and the correspondence harness. Reading: an in-place call with invalid arguments may raise that error before the frozen guard (it still changes nothing). invalidated_by dependants (by name and by the wildcard), Alias / spec_property / property backed attributes, keyed containers and tuple-typed attributes are outside the modelled grammar and are covered by the frozen-vs-twin differential over generated class families of `extra` only (harness/heap_shapes.py).",
     "technique": "Lean 4 guard-before-write and frame theorems over a hand-written heap model with a thaw window; differential correspondence + frozen-vs-twin differential on the real classes",
 }
